@@ -418,6 +418,26 @@ func (s *Sim) handleDecision(h *Hand, d *Decision) bool {
 		if s.Stall != "" {
 			return false
 		}
+		for retry := 0; len(d.Asked) == 0 && retry < 100; retry++ {
+			// a snapshot taken by the harness itself (PushSnapshot) can catch the hand between
+			// the request being queued and the table-side handler marking who is asked
+			time.Sleep(500 * time.Microsecond)
+			fresh := s.Now()
+			fgs := fresh.State.GameState
+			if fgs == nil || fgs.GameID != gs.GameID || fgs.Status.CurrentEvent != gs.Status.CurrentEvent {
+				break
+			}
+			for _, p := range fgs.Players {
+				for _, a := range p.AllowedActions {
+					if a == want && p.Idx < len(d.M) {
+						d.Asked = append(d.Asked, d.M[p.Idx])
+					}
+				}
+			}
+			if len(d.Asked) > 0 {
+				d.Table, d.GS, gs = fresh, fgs, fgs
+			}
+		}
 		if len(d.Asked) == 0 {
 			// nobody asked: the engine waits for nobody; it will only move by timeout
 			pj, _ := json.Marshal(gs.Players)
